@@ -73,8 +73,6 @@ fn fnv(s: &str) -> u64 {
     h
 }
 
-/// One correspondence stream: `<name>.ops` (requests for the Lean driver), `<name>.impl`
-/// (what the real code did, one line per request), `<name>.json` (report).
 // ---- "what is running right now": two lines in <out>/<stream>.current, rewritten before the real code is entered,
 // so that when the process running it does not come back (endless loop, runaway allocation, abort) the check can
 // name the concrete case instead of only "the harness died"
@@ -95,6 +93,8 @@ pub fn mark(slot: usize, text: &str) {
     });
 }
 
+/// One correspondence stream: `<name>.ops` (requests for the Lean driver), `<name>.impl`
+/// (what the real code did, one line per request), `<name>.json` (report).
 pub struct Stream {
     pub name: String,
     ops: BufWriter<File>,
@@ -221,12 +221,15 @@ pub fn delegate_nostd(bin: &str) -> ! {
     let manifest = Path::new(env!("CARGO_MANIFEST_DIR")).to_path_buf();   // /verif/harness or /verif/.build/alt/<tag>/harness
     let local = manifest.parent().unwrap().join("harness_nostd");
     let fail = |msg: String| -> ! { eprintln!("cannot run the no_std harness: {}", msg); std::process::exit(3) };
-    if !local.join("Cargo.toml").exists() {
-        // mutation mode (VERIF_REPO): private copy next to the private harness copy, path deps re-pointed like check does
+    // `local` is either /verif/harness_nostd itself or, in mutation mode (VERIF_REPO), a private copy next to the
+    // private harness copy: that copy is REWRITTEN on every run from the real crate (path deps re-pointed like check
+    // does), so that it never lags behind the real Cargo.toml
+    let is_real = local.parent().map_or(false, |r| r.join("check").exists() && r.join("MANIFEST.json").exists());
+    if !is_real {
         let mut root: Option<PathBuf> = None;
         let mut p = manifest.clone();
         while let Some(q) = p.parent().map(|x| x.to_path_buf()) {
-            if q.join("harness_nostd").join("Cargo.toml").exists() { root = Some(q); break; }
+            if q.join("harness_nostd").join("Cargo.toml").exists() && q.join("check").exists() { root = Some(q); break; }
             p = q;
         }
         let root = root.unwrap_or_else(|| fail("harness_nostd not found".into()));
